@@ -15,9 +15,18 @@ type inProcessTransport struct {
 	done    chan bool
 	closed  bool
 	mu      sync.RWMutex
+
+	closedLocally bool // Close was called on this end (and not only on the remote one)
 }
 
 func (t *inProcessTransport) Close() error {
+	t.mu.Lock()
+	t.closedLocally = true
+	t.mu.Unlock()
+	return t.close()
+}
+
+func (t *inProcessTransport) close() error {
 	t.mu.Lock()
 	defer t.mu.Unlock()
 
@@ -28,14 +37,14 @@ func (t *inProcessTransport) Close() error {
 
 	if !t.remote.closed {
 		// We are not closing the envChan here to avoid panics on Send method
-		return t.remote.Close()
+		return t.remote.close()
 	}
 
 	return nil
 }
 
 func (t *inProcessTransport) Send(ctx context.Context, e envelope) error {
-	if !t.Connected() {
+	if t.isClosed() {
 		return errors.New("transport is closed")
 	}
 	select {
@@ -47,13 +56,24 @@ func (t *inProcessTransport) Send(ctx context.Context, e envelope) error {
 }
 
 func (t *inProcessTransport) Receive(ctx context.Context) (envelope, error) {
-	if !t.Connected() {
+	// What the peer sent before the transport was closed is still delivered
+	select {
+	case e := <-t.envChan:
+		return e, nil
+	default:
+	}
+	if t.isClosed() {
 		return nil, errors.New("transport is closed")
 	}
 	select {
 	case <-ctx.Done():
 		return nil, fmt.Errorf("receive: %w", ctx.Err())
 	case <-t.done:
+		select {
+		case e := <-t.envChan:
+			return e, nil
+		default:
+		}
 		return nil, errors.New("transport was closed while receiving")
 	case e := <-t.envChan:
 		return e, nil
@@ -100,10 +120,17 @@ func (t *inProcessTransport) SetEncryption(context.Context, SessionEncryption) e
 	return errors.New("encryption is not supported by in process transport")
 }
 
+// Connected indicates if the transport is open, or closed by the peer with envelopes still to be received.
 func (t *inProcessTransport) Connected() bool {
 	t.mu.RLock()
 	defer t.mu.RUnlock()
-	return !t.closed
+	return !t.closed || (!t.closedLocally && len(t.envChan) > 0)
+}
+
+func (t *inProcessTransport) isClosed() bool {
+	t.mu.RLock()
+	defer t.mu.RUnlock()
+	return t.closed
 }
 
 func (t *inProcessTransport) LocalAddr() net.Addr {
